@@ -237,6 +237,9 @@ def ret_components(prog, f, idx):
                         if d[0] == '=' and d[4][0] == 'agg' and d[4][1].get('k') == 'tuple' and idx < len(d[4][2]):
                             out.append(prog.narrow.operand(f, d[4][2][idx]))
     return out
+    # ---- running totals (amounts, power, datacap) accumulated in loops keep their earlier contributions
+    X.accumulator_integrity('K12', 'running-totals', ['fil_actor_miner'], 'running totals of amounts')
+
 
 
 def fallback_to_burn(prog, X, H, send, burns):
